@@ -36,6 +36,7 @@ const (
 	bSortCallback
 	bMapCallback
 	bRangeSlice
+	bRecvAssign
 	bSleepLoop
 	nBodies
 )
@@ -43,7 +44,7 @@ const (
 var bodyName = [...]string{"loop-tick", "count-loop", "recursion", "closure-loop", "method-loop", "funcval-loop",
 	"nested-call", "make-closure-loop", "send-block", "recv-block", "recv-cond", "recv2", "range-chan",
 	"select-recv-send", "select-default-loop", "select-empty", "ping-pong", "defer-literal", "defer-host",
-	"send-buffered-full", "select-many", "sort-callback", "strings-map-callback", "range-slice-loop", "sleep-loop"}
+	"send-buffered-full", "select-many", "sort-callback", "strings-map-callback", "range-slice-loop", "recv-assign", "sleep-loop"}
 
 // C09Prog is a generated program.
 type C09Prog struct {
@@ -174,6 +175,19 @@ func (g *c09Gen) actor(depth int) int {
 		p("\tfor {\n\t\t_ = strings.Map(func(c rune) rune {\n\t\t\thost.Tick(%d)\n\t\t\treturn c + 1\n\t\t}, \"abcdef\")\n\t}\n", id)
 	case bRangeSlice:
 		p("\tdata := []int{1, 2, 3, 4}\n\tm := map[int]int{1: 1, 2: 2}\n\tfor {\n\t\tfor i, v := range data {\n\t\t\thost.Tick(%d + i*0 + v*0)\n\t\t}\n\t\tfor k := range m {\n\t\t\thost.Tick(%d + k*0)\n\t\t}\n\t\tfor i := range 3 {\n\t\t\thost.Tick(%d + i*0)\n\t\t}\n\t}\n", id, id, id)
+	case bRecvAssign:
+		// the received value is assigned to an existing variable, a slice element
+		// or a struct field (not declared by the statement)
+		switch g.tape.Choose(4) {
+		case 0:
+			p("\tc := make(chan int)\n\tv := 1\n\tv = <-c\n\thost.Tick(%d + v*0)\n", 900+id)
+		case 1:
+			p("\tc := make(chan int)\n\ta := []int{1, 2}\n\ta[1] = <-c\n\thost.Tick(%d + a[1]*0)\n", 900+id)
+		case 2:
+			p("\tc := make(chan string)\n\tvar s struct{ f string }\n\ts.f = <-c\n\thost.Tick(%d + len(s.f)*0)\n", 900+id)
+		case 3:
+			p("\tc := make(chan int)\n\tv := 1\n\tf := func() { v = <-c }\n\tf()\n\thost.Tick(%d + v*0)\n", 900+id)
+		}
 	case bSleepLoop:
 		g.sleeps = true
 		p("\tfor {\n\t\ttime.Sleep(%d * time.Millisecond)\n\t\thost.Tick(%d)\n\t}\n", 1+g.tape.Choose(4), id)
